@@ -201,9 +201,7 @@ theorem obsStep_inv (fc : Option Nat) (m m' : Mon) (o : Obs) (h : MInv m) (hs : 
             simp only
             omega
           cases hs
-          split
-          · exact ⟨h1, h2, hstr, h4⟩
-          · exact ⟨h1, h2, hstr, h4⟩
+          exact ⟨h1, h2, hstr, h4⟩
   | crst sid => simp only [obsStep] at hs; cases hs; exact setStatus_inv m sid _ ⟨h1, h2, h3, h4⟩
   | closed => simp only [obsStep] at hs; cases hs; exact ⟨h1, h2, h3, h4⟩
   | skipped => simp only [obsStep] at hs; cases hs; exact ⟨h1, h2, h3, h4⟩
